@@ -283,6 +283,15 @@ func genPlan(r *RNG, nBlocks int, addrs []sdk.AccAddress) ([][]genOp, [][]genTx,
 					return c.a.AttributeKeeper.SetAttribute(ctx, attrtypes.Attribute{Name: nm, Value: []byte(val),
 						AttributeType: attrtypes.AttributeType_String, Address: acct.String(), ExpirationDate: exp}, owner)
 				})
+				if r.Chance(12) {
+					// governance lowers the maximum value length below a value already in state (MsgUpdateParams
+					// does not touch existing attributes)
+					desc = append(desc, "attr-maxlen-lowered")
+					ops = append(ops, func(c *genChain, ctx sdk.Context) error {
+						c.a.AttributeKeeper.SetParams(ctx, attrtypes.Params{MaxValueLength: 1})
+						return nil
+					})
+				}
 			case 2: // marker
 				denom := fmt.Sprintf("mk%dcoin", len(markers))
 				mgrIdx := r.Intn(len(addrs))
@@ -307,6 +316,19 @@ func genPlan(r *RNG, nBlocks int, addrs []sdk.AccAddress) ([][]genOp, [][]genTx,
 						SupplyFixed: fixed, AllowGovernanceControl: true,
 					})
 				})
+				if mtype == markertypes.MarkerType_RestrictedCoin && r.Chance(50) {
+					denied := []sdk.AccAddress{pick()}
+					if r.Bool() {
+						denied = append(denied, pick())
+					}
+					desc = append(desc, "marker-senddeny")
+					ops = append(ops, func(c *genChain, ctx sdk.Context) error {
+						for _, d := range denied {
+							c.a.MarkerKeeper.AddSendDeny(ctx, markertypes.MustGetMarkerAddress(denom), d)
+						}
+						return nil
+					})
+				}
 			case 3: // marker mint / withdraw
 				if len(markers) == 0 {
 					continue
@@ -407,6 +429,11 @@ func genPlan(r *RNG, nBlocks int, addrs []sdk.AccAddress) ([][]genOp, [][]genTx,
 					}
 					return c.a.BankKeeper.SendCoins(ctx, from, to, sdk.NewCoins(sdk.NewInt64Coin("usdx", amt)))
 				})
+				if r.Chance(35) {
+					// the receiver opts out again without accepting: the record stays, the funds stay with the holder
+					desc = append(desc, "quarantine-optout")
+					ops = append(ops, func(c *genChain, ctx sdk.Context) error { return c.a.QuarantineKeeper.SetOptOut(ctx, to) })
+				}
 			case 9: // sanction (permanent or temporary) of a throw-away address
 				ad := sdk.AccAddress([]byte(fmt.Sprintf("verif_sanctioned_%04d", r.Intn(10000))))
 				temp := r.Bool()
@@ -457,6 +484,9 @@ func genPlan(r *RNG, nBlocks int, addrs []sdk.AccAddress) ([][]genOp, [][]genTx,
 				if r.Bool() {
 					rcpt = pick().String()
 					bips = uint32(r.Intn(10001))
+					if r.Chance(45) {
+						bips = []uint32{0, 0, 1, 5000, 9999, 10000}[r.Intn(6)] // a recipient with an explicit 0 split is valid
+					}
 				}
 				fee := int64(1 + r.Intn(1000))
 				desc = append(desc, "msgfee")
